@@ -268,6 +268,12 @@ impl Interpreter {
 
   #[cfg(feature = "functions")]
   pub fn step(&mut self, step_id: usize, step_count: u64) -> MResult<Value> {
+    catch_unwind(AssertUnwindSafe(|| self.step_plan(step_id, step_count)))
+    .map_err(panic_to_error)?
+  }
+
+  #[cfg(feature = "functions")]
+  fn step_plan(&mut self, step_id: usize, step_count: u64) -> MResult<Value> {
     let state_brrw = self.state.borrow();
     let mut plan_brrw = state_brrw.plan.borrow_mut(); // RefMut<Vec<Box<dyn MechFunction>>>
 
@@ -371,39 +377,18 @@ impl Interpreter {
       }
       result
     }))
-    .map_err(|err| {
-      match err.downcast_ref::<&'static str>() {
-         Some(raw_msg) => {
-          if raw_msg.contains("Index out of bounds") {
-              MechError::new(IndexOutOfBoundsError, None).with_compiler_loc()
-          } else if raw_msg.contains("attempt to subtract with overflow") {
-              MechError::new(OverflowSubtractionError, None).with_compiler_loc()
-          } else {
-            MechError::new(
-              UnknownPanicError {
-                details: raw_msg.to_string(),
-              },
-              None,
-            )
-            .with_compiler_loc()
-          }
-        } 
-        None => {
-          MechError::new(
-            UnknownPanicError {
-              details: "Non-string panic".to_string(),
-            },
-            None,
-          )
-          .with_compiler_loc()
-        }
-      }
-    })?
+    .map_err(panic_to_error)?
   }
     
 
   #[cfg(feature = "program")]
   pub fn run_program(&mut self, program: &ParsedProgram) -> MResult<Value> {
+    catch_unwind(AssertUnwindSafe(|| self.load_program(program)))
+    .map_err(panic_to_error)?
+  }
+
+  #[cfg(feature = "program")]
+  fn load_program(&mut self, program: &ParsedProgram) -> MResult<Value> {
     // Reset the instruction pointer
     self.ip = 0;
     // Resize the registers and constant table
@@ -591,6 +576,12 @@ impl Interpreter {
 
   #[cfg(feature = "compiler")]
   pub fn compile(&mut self) -> MResult<Vec<u8>> {
+    catch_unwind(AssertUnwindSafe(|| self.compile_plan()))
+    .map_err(panic_to_error)?
+  }
+
+  #[cfg(feature = "compiler")]
+  fn compile_plan(&mut self) -> MResult<Vec<u8>> {
     let state_brrw = self.state.borrow();
     let mut plan_brrw = state_brrw.plan.borrow_mut();
     let mut ctx = CompileCtx::new();
@@ -600,6 +591,28 @@ impl Interpreter {
     let bytes = ctx.compile()?;
     self.context = Some(ctx);
     Ok(bytes)
+  }
+}
+
+// Turn a panic caught at one of the interpreter's entry points into an error
+fn panic_to_error(err: Box<dyn std::any::Any + Send>) -> MechError {
+  let raw_msg = match (err.downcast_ref::<&'static str>(), err.downcast_ref::<String>()) {
+    (Some(raw_msg), _) => *raw_msg,
+    (_, Some(raw_msg)) => raw_msg.as_str(),
+    _ => "Non-string panic",
+  };
+  if raw_msg.contains("Index out of bounds") {
+    MechError::new(IndexOutOfBoundsError, None).with_compiler_loc()
+  } else if raw_msg.contains("attempt to subtract with overflow") {
+    MechError::new(OverflowSubtractionError, None).with_compiler_loc()
+  } else {
+    MechError::new(
+      UnknownPanicError {
+        details: raw_msg.to_string(),
+      },
+      None,
+    )
+    .with_compiler_loc()
   }
 }
 
